@@ -121,17 +121,23 @@ def _invert_topology_at_store(
         store.path_for()[outside:-1], update, store.topology)
 
 
-def _emit_settings(schema: dict) -> dict:
-    """The part of a store schema that sets ``_emit`` flags."""
+def _without_values(schema: dict) -> dict:
+    """A store schema without its ``_value`` keys.
+
+    (The values it sets have been set by its first application: they
+    need not, and for values that do not compare equal to themselves
+    cannot, be checked against themselves a second time.)
+    """
     settings = {}
     for key, value in schema.items():
-        if key == '_emit':
+        if key == '_value':
+            continue
+        if isinstance(value, dict) and (
+                key in ('*', '_subschema')
+                or not str(key).startswith('_')):
+            settings[key] = _without_values(value)
+        else:
             settings[key] = value
-        elif isinstance(value, dict) and (
-                key == '*' or not str(key).startswith('_')):
-            inner = _emit_settings(value)
-            if inner:
-                settings[key] = inner
     return settings
 
 
@@ -489,11 +495,9 @@ class Engine:
             # and the views are built from what is there now.
             self.state._apply_subschemas()
             # (re-applying the sub-schemas to the existing children must
-            # not undo the emit settings of store_schema: it has the
-            # last word)
-            emit_settings = _emit_settings(store_schema)
-            if emit_settings:
-                self.state._apply_config(emit_settings)
+            # not undo the settings of store_schema: it has the last
+            # word)
+            self.state._apply_config(_without_values(store_schema))
             self.state.apply_defaults()
             self.state.build_topology_views()
 
@@ -823,6 +827,21 @@ class Engine:
             topology_updates, process_updates, step_updates,
             flow_updates, deletions, view_expire
         ) = self.state.apply_update(update, state)
+
+        outside = len(self.state.path_for())
+        if outside:
+            # The engine runs one compartment of a larger tree: the
+            # store reports paths from the top of the tree, the engine
+            # keeps them from its own state.
+            topology_updates = [
+                (path[outside:], value) for path, value in topology_updates]
+            process_updates = [
+                (path[outside:], value) for path, value in process_updates]
+            step_updates = [
+                (path[outside:], value) for path, value in step_updates]
+            flow_updates = [
+                (path[outside:], value) for path, value in flow_updates]
+            deletions = [path[outside:] for path in deletions]
 
         if deletions:
             # What the update created may have been removed again by the
